@@ -1,5 +1,7 @@
 mod lua_operator;
 mod lua_operator_meta_method;
+#[cfg(feature = "verif")]
+mod verif;
 
 use hashbrown::HashMap;
 
